@@ -7,7 +7,8 @@ Case (plain JSON)::
      "data": [d1, d2]                       two data assignments for the templates of the IR,
      "prog": None | {"prog": G-stmt program (vt/gen/stmt.py), "data": [p1, p2]}
                                             -> templates "prog" (the program) and "progu" (imports / includes it),
-     "raw":  None | {"templates": {name: source}, "data": [r1, r2]}     hand-written sources (feature snippets, replays),
+     "raw":  None | {"templates": {name: source}, "data": [r1, r2], "broken": [names with a syntax error]}
+                                            hand-written sources (feature snippets, replays),
      "rename": {template name: new name}    applied to every string of ir / data that equals a template name,
      "cfg": {"zip": None|"stored"|"deflated", "zip2": same (second target of the split forms),
              "form": one of FORMS, "mask": int (which templates go where in split / choice forms),
@@ -139,6 +140,8 @@ def build_sources(case):
             name = ren.get(name, name)
             sources[name] = src
             group[name] = "raw"
+            if name in (case["raw"].get("broken") or ()):
+                broken.append(name)
         datasets["raw"] = case["raw"]["data"]
     return sources, group, datasets, broken, globs
 
@@ -585,6 +588,8 @@ def shards(tier):
 
 
 def run_shard(spec, ctx):
+    import hypothesis.errors
+
     n = ctx.pick(320, 3600)  # measured ~100 ms CPU per case (quick sizes), ~140 ms (thorough sizes)
     strat = _strategy(ctx.pick((3, 4, 3, 3, 14), (4, 5, 4, 4, 30)))
     rec = core.Rec()
@@ -594,7 +599,15 @@ def run_shard(spec, ctx):
     _warm()
     while done < n and not rec.violations:
         m = min(chunk, n - done)
-        core.hyp_shard(strat, check_case, ctx, m, rec=rec, tag="sets-%d" % done)
+        nviol = len(rec.violations)
+        try:
+            core.hyp_shard(strat, check_case, ctx, m, rec=rec, tag="sets-%d" % done)
+        except hypothesis.errors.Flaky:
+            # a failure that did not repeat when Hypothesis replayed the case (state kept in the process, or a thread
+            # schedule): the violation was observed and recorded by Rec.run -- report the first one, unshrunk
+            if len(rec.violations) == nviol:
+                raise
+            del rec.violations[nviol + 1:]
         done += m
     return rec
 
